@@ -315,6 +315,33 @@ void sets()
 }
 }
 
+// the same helpers on std::multiset ("an associative container"): the multiplicity of x in the union is the maximum of
+// its multiplicities, in the intersection the minimum, in the difference max(0, ma - mb) (std::set_union & co.)
+namespace
+{
+void multisets()
+{
+  unsigned const na{static_cast<unsigned>(verif_param("na"))}, nb{static_cast<unsigned>(verif_param("nb"))};
+  int ea[maxn], eb[maxn];
+  std::multiset<int> A{}, B{};
+  for (unsigned i = 0; i < na; ++i) { ea[i] = static_cast<int>(verif_u32("a")); A.insert(ea[i]); }
+  for (unsigned i = 0; i < nb; ++i) { eb[i] = static_cast<int>(verif_u32("b")); B.insert(eb[i]); }
+  int const x{static_cast<int>(verif_u32("probe"))};
+  unsigned ma{0}, mb{0};
+  for (unsigned i = 0; i < na; ++i) ma += (ea[i] == x) ? 1U : 0U;
+  for (unsigned i = 0; i < nb; ++i) mb += (eb[i] == x) ? 1U : 0U;
+  std::multiset<int> const U{fcppt::container::set_union(A, B)}, I{fcppt::container::set_intersection(A, B)}, D{fcppt::container::set_difference(A, B)};
+  verif_assert(U.count(x) == (ma > mb ? ma : mb), "set_union (multiset): multiplicity = max");
+  verif_assert(I.count(x) == (ma < mb ? ma : mb), "set_intersection (multiset): multiplicity = min");
+  verif_assert(D.count(x) == (ma > mb ? ma - mb : 0U), "set_difference (multiset): multiplicity = max(0, ma - mb)");
+  verif_assert(U.size() + I.size() == na + nb, "set_union / set_intersection (multiset): sizes add up");
+  verif_assert(A.size() == na && B.size() == nb, "set helpers leave their arguments untouched");
+  verif_reach("multisets-end");
+}
+}
+VERIF_HARNESS(h_assoc_multisets) { multisets(); }
+//@harness h_assoc_multisets param na=0..2 param nb=0..2 tier=quick loop=40
+
 VERIF_HARNESS(h_assoc_iteration) { iteration(); }
 VERIF_HARNESS(h_assoc_iteration_second) { iteration_second(); }
 VERIF_HARNESS(h_assoc_lookup) { lookup(); }
